@@ -7,14 +7,10 @@ namespace Libvna.Drv
 
 def EPS : Float := 1.0e-25
 
-/-- the Bulirsch–Stoer loop of `_vnacal_rfi` after the segment has been found -/
-def rfiBody (xs : Array Float) (ys : Array CF) (n m : Nat) (segment : Nat) (x : Float) : CF := Id.run do
-  let dx1 := Float.abs (x - xs[segment]!)
-  let dx2 := Float.abs (x - xs[segment + 1]!)
-  let nearest := if dx1 <= dx2 || m < 2 then segment else segment + 1
-  let base0 : Int := if m % 2 == 1 then (nearest : Int) - ((m - 1) / 2 : Nat) else (segment : Int) - ((m / 2 - 1 : Nat) : Int)
-  let base : Nat := if base0 < 0 then 0 else if base0.toNat + m > n then n - m else base0.toNat
-  let mut cur : Int := (nearest : Int) - base
+/-- `rfi_window`: the Bulirsch–Stoer recurrence on one window (base = first point of the window, cur0 = index of the point nearest x
+    within it); the Bool says that an intermediate denominator (nearly) vanished -/
+def rfiWindow (xs : Array Float) (ys : Array CF) (base m : Nat) (cur0 : Int) (x : Float) : CF × Bool := Id.run do
+  let mut cur : Int := cur0
   -- samples that are zero / negligible against the others: interpolate y + shift (vnacal_rfi.c)
   let mut ymax : Float := 0.0
   let mut ymin : Float := 1.0 / 0.0
@@ -36,19 +32,38 @@ def rfiBody (xs : Array Float) (ys : Array CF) (n m : Nat) (segment : Nat) (x : 
           let cd := c[j + 1]! - d[j]!
           let a : CF := ⟨x - xs[base + j]!, 0⟩
           let b : CF := ⟨x - xs[base + i + j + 1]!, 0⟩
-          let den := a * d[j]! - b * c[j + 1]!
-          if CF.abs den < 10.0 * EPS then
+          let t1 := a * d[j]!
+          let t2 := b * c[j + 1]!
+          let den := t1 - t2
+          if CF.abs den < 10.0 * EPS || CF.abs den < 1.0e-6 * (CF.abs t1 + CF.abs t2) then
             stop := true
           else
-            c := c.set! j (cd * a * d[j]! / den)
-            d := d.set! j (cd * b * c[j + 1]! / den)
+            c := c.set! j (cd * t1 / den)
+            d := d.set! j (cd * t2 / den)
       if !stop then
         if 2 * (cur + 1) < ((m - i : Nat) : Int) then
           y := y + c[(cur + 1).toNat]!
         else
           y := y + d[cur.toNat]!
           cur := cur - 1
-  return addRe y (-shift)
+  return (addRe y (-shift), stop)
+
+/-- the part of `_vnacal_rfi` after the segment has been found: window choice, recurrence, and the mean of the two neighbouring
+    evaluations where the recurrence meets a pole of an intermediate interpolant -/
+def rfiBody (xs : Array Float) (ys : Array CF) (n m : Nat) (segment : Nat) (x : Float) : CF :=
+  let dx1 := Float.abs (x - xs[segment]!)
+  let dx2 := Float.abs (x - xs[segment + 1]!)
+  let nearest := if dx1 <= dx2 || m < 2 then segment else segment + 1
+  let base0 : Int := if m % 2 == 1 then (nearest : Int) - ((m - 1) / 2 : Nat) else (segment : Int) - ((m / 2 - 1 : Nat) : Int)
+  let base : Nat := if base0 < 0 then 0 else if base0.toNat + m > n then n - m else base0.toNat
+  let cur : Int := (nearest : Int) - base
+  let (y, pole) := rfiWindow xs ys base m cur x
+  if pole then
+    let h := 1.0e-4 * (if dx1 < dx2 then dx1 else dx2)
+    let (y1, _) := rfiWindow xs ys base m cur (x - h)
+    let (y2, _) := rfiWindow xs ys base m cur (x + h)
+    ⟨0.5 * (y1.re + y2.re), 0.5 * (y1.im + y2.im)⟩
+  else y
 
 def fltB (a b : Float) : Bool := a < b
 
